@@ -20,7 +20,7 @@ META = {
         "0.01-0.3 s, and an ending in {shutdown from an outside thread, from a thread payload, two or three "
         "concurrent shutdowns, SIGINT to the main thread, KeyboardInterrupt raised in an asyncio / thread / "
         "trio payload, Exception failure, orphaned return, BaseException failure, shutdown racing a failing "
-        "payload by -30..+30 ms}; line-level delay injection (with longer delays inside stop / shutdown); kind=polling: the accept loop alone under a "
+        "payload by -30..+30 ms}; line-level delay injection (with longer delays inside stop / shutdown); kind=late_stop: six forced schedules (a shutdown() preempted inside stop() before its 1st / 2nd / 3rd close request while the runtime ends by another shutdown or by a failure, resuming between the loop's last turn and loop.close()); kind=polling: the accept loop alone under a "
         "virtual clock, uptimes from 0 to 20000 polling cycles: a shutdown request is noticed within one accept_delay. Non-trivial = history of >= 2 generations that "
         "all reached `running`; distinct by history shape."
     ),
@@ -36,8 +36,8 @@ ENDINGS = ["shutdown_outside", "shutdown_thread", "shutdown_double", "sigint", "
 
 def plan(tier, seed):
     if tier == "thorough":
-        return [dict(seed=seed, shard=i, n=60) for i in range(16)] + [dict(seed=seed, shard="polling", kind="polling", n=400)]
-    return [dict(seed=seed, shard=i, n=5) for i in range(16)] + [dict(seed=seed, shard="polling", kind="polling", n=60)]
+        return [dict(seed=seed, shard=i, n=60) for i in range(16)] + [dict(seed=seed, shard="polling", kind="polling", n=400), dict(seed=seed, shard="late_stop", kind="late_stop")]
+    return [dict(seed=seed, shard=i, n=5) for i in range(16)] + [dict(seed=seed, shard="polling", kind="polling", n=60), dict(seed=seed, shard="late_stop", kind="late_stop")]
 
 
 def gen_generation(rnd, index, ending):
@@ -141,8 +141,42 @@ def gen_case(rnd, spec):
         inject = inject or {"seed": rnd.randint(0, 10**6), "p_yield": 0.2, "p_sleep": 0.0}
         where = rnd.choice(["BaseRunner.stop", "BaseRunner.stop", "MetaRunner.stop", "ServiceRunner.shutdown"])
         inject["hot"] = {where: rnd.choice([0.1, 0.3])}
+        if rnd.random() < 0.5:
+            # ... and the loop lingers between its last turn and close(): a stop() request can arrive in between
+            inject["hot"]["Runner.close"] = rnd.choice([0.02, 0.05, 0.1])
     return {"watchdog": 45, "inject": inject, "generations": gens,
             "meta": {"endings": [g["meta"]["ending"] for g in gens]}}
+
+
+def run_late_stop_shard(spec, result):
+    """Forced schedule (vlib/rt/late_stop.py): a shutdown() whose close request reaches the event loop between the
+    loop's last turn and loop.close() - found once by the random histories under load, decided here on every run."""
+    import json
+    import os
+    import subprocess
+
+    for which in (0, 1, 2):
+        for ending in ("shutdown", "failure"):
+            case = {"kind": "late_stop", "parked_request": which, "runtime_ends_by": ending}
+            env = dict(os.environ)
+            try:
+                proc = subprocess.run([core.PYTHON, "-m", "vlib.rt.late_stop", str(which), ending], capture_output=True, text=True, timeout=90, env=env)
+                out = json.loads(proc.stdout.strip().splitlines()[-1])
+            except Exception as err:  # noqa: B902
+                result.inconc("forced late-stop schedule %s did not run: %r" % (case, err))
+                continue
+            result.case(dict(case, observed=out), nontrivial=bool(out.get("window_reached")), key=json.dumps(case))
+            if out.get("inconclusive"):
+                result.inconc("forced late-stop schedule %s: %s" % (case, out["inconclusive"]))
+                continue
+            if not out.get("window_reached"):
+                result.inconc("forced late-stop schedule %s never reached the window before loop.close()" % (case,))
+                continue
+            result.count("forced_late_stop_schedules_checked")
+            if out["late_shutdown"] != "returned":
+                result.violation("a shutdown() preempted inside stop() (before its close request no. %d) while the runtime ended by %s, resuming "
+                                 "between the event loop's last turn and loop.close(): %s (accept: %s)"
+                                 % (which + 1, ending, out["late_shutdown"], out.get("accept")), dict(case, observed=out), None, spec=spec, case_id=which * 2 + (ending == "failure"))
 
 
 def run_polling_shard(spec, result):
@@ -293,6 +327,9 @@ def run_shard(spec):
     if spec.get("kind") == "polling":
         run_polling_shard(spec, result)
         return result
+    if spec.get("kind") == "late_stop":
+        run_late_stop_shard(spec, result)
+        return result
     only = spec.get("only_case")
     for i in range(spec["n"]):
         if only is not None and i != only:
@@ -309,7 +346,7 @@ def run_shard(spec):
 
 
 def finish(total, tier):
-    need = ["histories_completed", "polling_loops_checked", "restarts_of_the_same_runner_instance", "concurrent_accepts_rejected", "shutdown_calls_returned", "race_outcome_returned",
+    need = ["histories_completed", "polling_loops_checked", "restarts_of_the_same_runner_instance", "concurrent_accepts_rejected", "shutdown_calls_returned", "race_outcome_returned", "forced_late_stop_schedules_checked",
             "shutdowns_with_asyncio_payload_failing_on_cancellation", "shutdowns_with_trio_payload_failing_on_cancellation"]
     need += ["ending_" + e for e in ENDINGS] + ["restarts_after_" + e for e in ENDINGS]
     for name in need:
